@@ -330,3 +330,85 @@ func c17WsStuckTalker(r *Run) {
 		r.Violate("wsstuck.leak", "schedule", "goroutines of the proxy were left behind after its context was cancelled (a websocket peer was stuck and talking)", in, where, fmt.Sprintf("%d goat goroutines, as before NewProxy", base))
 	}
 }
+
+// c17ReattachFromCallback: the disconnect callback does what an application does when it learns a peer
+// is gone: it attaches the peer's NEW connection under the old name, from inside the callback. The
+// callback returns, traffic between the other peers goes on, and an envelope for the name reaches the
+// new connection.
+func c17ReattachFromCallback(r *Run) {
+	if !r.Want("cbreattach") || c17Leaks > 2 {
+		return
+	}
+	base := c17Base()
+	for _, fault := range []string{"read", "write"} {
+		in := map[string]any{"fault": fault + " error on the peer's connection", "callback": "calls AddClient for the same name with a new connection"}
+		r.Progress("cbreattach", in)
+		ctx, cancel := context.WithCancel(context.Background())
+		var proxy *goat.Proxy
+		fresh := NewScript(16)
+		cbDone := make(chan struct{}, 4)
+		proxy = goat.NewProxy(ctx, "px", func(id string) (goat.RpcReadWriter, error) { return nil, fmt.Errorf("no such peer %q", id) }, nil,
+			func(id string, reason error) {
+				if id == "c" {
+					proxy.AddClient("c", fresh)
+				}
+				cbDone <- struct{}{}
+			})
+		served := make(chan struct{})
+		go func() { defer close(served); proxy.Serve() }()
+		a, b, c := NewScript(16), NewScript(16), NewScript(16)
+		proxy.AddClient("a", a)
+		proxy.AddClient("b", b)
+		proxy.AddClient("c", c)
+		ok := true
+		expect := func(s *Script, id uint64, what string) {
+			select {
+			case e := <-s.Out:
+				if e.Id != id {
+					r.Violate("cbreattach.forward", "ops", "unexpected envelope forwarded ("+what+")", in, e.Id, id)
+					ok = false
+				}
+			case <-time.After(hangTimeout):
+				r.Violate("cbreattach.forward", "ops", "an envelope was not forwarded ("+what+")", in, goroutineDump(), nil)
+				ok = false
+			}
+		}
+		a.In <- pxGoodEnv(1, "a", "c")
+		expect(c, 1, "a to c")
+		if fault == "read" {
+			c.FailRead(errInjectedRead)
+		} else {
+			c.FailWrite(errInjectedWrite)
+			a.In <- pxGoodEnv(2, "a", "c") // the write that fails
+		}
+		select {
+		case <-cbDone:
+		case <-time.After(hangTimeout):
+			r.Violate("cbreattach.callback", "ops", "the disconnect callback, which attaches the peer's new connection, did not return", in, goroutineDump(), nil)
+			ok = false
+		}
+		if ok {
+			a.In <- pxGoodEnv(3, "a", "b")
+			expect(b, 3, "a to b after the callback")
+		}
+		if ok {
+			a.In <- pxGoodEnv(4, "a", "c")
+			expect(fresh, 4, "a to the connection attached from the callback")
+		}
+		r.Eval("cbreattach/"+fault, true)
+		r.Count("c17.cbreattach")
+		cancel()
+		for _, s := range []*Script{a, b, c, fresh} {
+			s.FailRead(errInjectedRead)
+		}
+		within(hangTimeout, func() { <-served })
+		if n, where := settleGoroutines(base); n > base {
+			c17Leaks++
+			c17Floor = n
+			if ok {
+				r.Violate("cbreattach.leak", "schedule", "goroutines of the proxy were left behind after its context was cancelled", in, where, fmt.Sprintf("%d goat goroutines, as before NewProxy", base))
+			}
+			return
+		}
+	}
+}
